@@ -12,7 +12,8 @@ LEAN_MODULE = 'Proofs.C02'
 THEOREMS = ['Fsic.C02.' + n for n in [
     'solveT_min_gt_max', 'solveT_offset_oob', 'solveT_offset_copy', 'solveT_offset_zero', 'pyIndex_offset',
     'solveT_converges', 'solveT_fails', 'failed_count_is_max_iter', 'good_iff', 'converging_calls',
-    'failing_calls', 'logged_transparent', 'solvePeriod_eq_solveT', 'solvePeriod_keyError']]
+    'failing_calls', 'logged_transparent', 'solvePeriod_eq_solveT', 'solvePeriod_keyError',
+    'solveT_outcome_exists', 'solveT_history_irrelevant', 'solveT_stamp_history_irrelevant']] + ['Fsic.solveT_eq_outcome']
 RULE = ('scripted models: every outcome sequence over {close, same, edge(|diff|==tol), far, one-variable-far, nan, '
         '+inf, raise, warn}^L crossed with max_iter 0..L, min_iter 0..max_iter+1, errors x catch_first_error '
         '(exhaustive core), plus random cases over n, number of endogenous/check variables (incl. none), t in both '
@@ -25,7 +26,7 @@ TRUSTED = ['Python/NumPy float64 comparison |a-b| < tol is IEEE-754 (mirrored by
 ASSUMPTIONS = ['-n <= t < n', 'check variables are float series', 'tol is a finite non-NaN float']
 
 META = {
-    "text": "Theorems for every interpretation (model, hooks, float semantics), option set, span length and period: rejection of min_iter>max_iter and out-of-span offsets without change, offset seeding, stop at the least accepted pass with status '.', iterations = passes run, True; otherwise 'F', iterations = max_iter, False / NonConvergenceError iff failures='raise'; hooks called exactly once and passes exactly k times (logged interpretation + simulation lemma). The model is tied to BaseModel.solve_t by exact comparison on scripted outcome lattices and on parser-built systems.",
+    "text": "Theorems for every interpretation (model, hooks, float semantics), option set, span length and period: rejection of min_iter>max_iter and out-of-span offsets without change, offset seeding, stop at the least accepted pass with status '.', iterations = passes run, True; otherwise 'F', iterations = max_iter, False / NonConvergenceError iff failures='raise'; hooks called exactly once and passes exactly k times (logged interpretation + simulation lemma); solve_t factors through the user state (solveT_eq_outcome): values, result and the stamp left do not depend on the status/iterations record of earlier calls. The model is tied to BaseModel.solve_t by exact comparison on scripted outcome lattices and on parser-built systems.",
     "design_ref": "DESIGN.md §5 M1, §6 C02",
     "note": "Trusted: Lean kernel; axioms propext/Classical.choice/Quot.sound; the correspondence harness (scripted models, recorded vectors) which validates the model on generated cases only; IEEE double comparison in NumPy equals Lean Float. Assumes -n <= t < n.",
     "technique": "Lean 4 proof (induction on the iteration fuel, simulation lemma) + differential correspondence check"
@@ -263,6 +264,30 @@ def oracle(case, m, tag, rep, calls=None, final=None):
     return 'failed'
 
 
+def history_twin(case, alt_status, alt_iters, impl_s, rep):
+    """Same values, same call, different earlier record in status / iterations: values, hook calls, result and the
+    stamp left at the period must be the same; every other period's record stays as it was (in both)."""
+    n = case['n']
+    twin = dict(case, status=alt_status, iters=alt_iters)
+    s2, m2, tag2 = sc.run_impl_solve_t(twin)
+    a, b = impl_s.split('|'), s2.split('|')
+    pos = case['t'] + n if case['t'] < 0 else case['t']
+    st_a, st_b = a[1], b[1]
+    it_a, it_b = a[2].split(','), b[2].split(',')
+    same = a[0] == b[0] and a[3:] == b[3:]      # result, calls, values
+    stamped_a = st_a[pos] != case['status'][pos] or int(it_a[pos]) != case['iters'][pos]
+    stamped_b = st_b[pos] != alt_status[pos] or int(it_b[pos]) != alt_iters[pos]
+    if stamped_a and stamped_b:
+        same = same and st_a[pos] == st_b[pos] and it_a[pos] == it_b[pos]
+    others = all(st_a[j] == case['status'][j] and int(it_a[j]) == case['iters'][j] and
+                 st_b[j] == alt_status[j] and int(it_b[j]) == alt_iters[j] for j in range(n) if j != pos)
+    rep.dist['history-twin:' + ('same' if same and others else 'DIFFERENT')] += 1
+    if not (same and others):
+        rep.violate('history-dependent',
+                    f'same values, same call, different earlier record: {impl_s[:120]} vs {s2[:120]}',
+                    {'case': case, 'twin_status': alt_status, 'twin_iters': alt_iters})
+
+
 def check_cases(ctx, rep, cases, label):
     """Run impl + oracle on every case, then the model on all of them in one driver batch."""
     impl_out = []
@@ -276,6 +301,16 @@ def check_cases(ctx, rep, cases, label):
         rep.case(key, nontrivial=bool(m.passes), sample={'t': case['t'], 'opts': case['opts'],
                                                           'script_t': [a['k'] for a in case['script'][case['t']]],
                                                           'impl': s} if rep.evaluations % 997 == 0 else None)
+    # the record of earlier solves must not feed back: the same call on a twin whose status / iterations differ
+    for i, case in enumerate(cases):
+        if i % 3:
+            continue
+        n = case['n']
+        alt_status = ''.join('.FES-'[(i + j) % 5] for j in range(n))
+        alt_iters = [(-1, 0, 5, 73)[(i + 2 * j) % 4] for j in range(n)]
+        if alt_status == case['status'] and alt_iters == list(case['iters']):
+            continue
+        history_twin(case, alt_status, alt_iters, impl_out[i], rep)
     # solve_period(label) must behave exactly like solve_t(position of label): every 4th case also goes through it
     sp_cases, sp_impl = [], []
     for i, case in enumerate(cases):
@@ -373,6 +408,11 @@ def oracle_natural(case, tag, final, calls, rec, rep):
 
 
 def replay(ctx, rep, case):
+    if 'twin_status' in case:
+        s, m, tag = sc.run_impl_solve_t(case['case'])
+        print('  impl :', s)
+        history_twin(case['case'], case['twin_status'], case['twin_iters'], s, rep)
+        return
     if 'loc' in case:
         s, m, tag = sc.run_impl_solve_period(case)
         oracle(case, m, tag, rep)
